@@ -29,6 +29,7 @@ func runC19(c *core.Ctx) {
 	h.configSetters("C19.3c config-setters")
 	h.openStorageRebuild("C19.3d restart-rebuild")
 	h.servePrologue("C19.4 serve-prologue")
+	h.labelCoherence("C19.3e label-coherence")
 }
 
 func runC20(c *core.Ctx) {
